@@ -5,6 +5,8 @@
 # (These were written with knowledge of /verif, so they are regression material, not independent seeds.)
 if [ -n "$(git -C /repo status --porcelain)" ]; then echo "refusing: /repo has uncommitted changes"; exit 2; fi
 bad=0
+# leave a binary built from the clean tree behind, whatever happens
+trap "cd /verif/sim && cargo build --release --offline >/dev/null 2>&1" EXIT
 for f in /verif/tools/gap_patches/*.diff; do
   b=$(basename "$f" .diff); p=${b%%-*}
   if git -C /repo apply "$f"; then
